@@ -28,6 +28,10 @@ fn kind_of(c: &ConeSpec) -> (String, usize) {
     };
     (k.to_string(), c.numel())
 }
+/// the bound is a process-wide setting: half of the time it is set from another thread than the one that builds the solver
+fn set_inf_somewhere(v: f64, salt: usize) {
+    if salt % 2 == 0 { clarabel::set_infinity(v); } else { std::thread::spawn(move || clarabel::set_infinity(v)).join().unwrap(); }
+}
 fn bound_val(s: &str) -> f64 { if s == "1e10" { 1e10 } else { 1e20 } }
 
 pub fn replay_one(b: &Value, rng: &mut StdRng) -> Option<String> {
@@ -62,7 +66,7 @@ pub fn replay_one(b: &Value, rng: &mut StdRng) -> Option<String> {
         clarabel::default_infinity();
         let mut k = 0;
         while hist[k]["op"] != "new" {
-            clarabel::set_infinity(bound_val(hist[k]["v"].as_str().unwrap()));
+            set_inf_somewhere(bound_val(hist[k]["v"].as_str().unwrap()), m + k);
             k += 1;
         }
         let bound = bound_val(exp["bound"].as_str().unwrap());
@@ -70,7 +74,7 @@ pub fn replay_one(b: &Value, rng: &mut StdRng) -> Option<String> {
         let mut solver = DefaultSolver::new(&P, &p.q, &A, &p.b, &p.clarabel_cones(), p.settings());
         k += 1;
         while hist[k]["op"] != "solve" {
-            clarabel::set_infinity(bound_val(hist[k]["v"].as_str().unwrap()));
+            set_inf_somewhere(bound_val(hist[k]["v"].as_str().unwrap()), m + k);
             k += 1;
         }
         // --- after construction
